@@ -362,18 +362,24 @@ Section WithZstd.
        forall i s, nth_error (samples c) i = Some s -> id_get (ids cr) (sname s) = Some (N.of_nat i)).
   Proof.
     intros bs c Hbs Hss Hk Hlen Hnames Hok.
-    destruct c as [S idm ss' k' nl sl']. cbn [samples segment_size kmer_length] in *. subst ss' k'.
-    set (Bs := chunks (length S) (N.to_nat bs) S) in *.
+    destruct c as [smp idm ss' k' nl sl']. cbn [samples segment_size kmer_length] in *. subst ss' k'.
+    set (Bs := chunks (length smp) (N.to_nat bs) smp) in *.
+    assert (HS : concat Bs = smp) by (subst Bs; apply concat_chunks; lia).
+    destruct (load_loop_ok
+                (mkArch [(zc 19 (ser_sample_names (map sname smp)), lenN (ser_sample_names (map sname smp)))]
+                        (map names_part Bs) (map details_part Bs) (0 + 1))
+                Bs [] (ids_of (map sname smp) 0 []) 0 eq_refl eq_refl Hok) as [nl' Hl].
+    cbn [concat app] in Hl. change (lenN (@nil sample)) with 0 in Hl. change (lenN (@nil (list sample))) with 0 in Hl.
     unfold store_all. cbn [samples].
-    pose proof (store_loop_ok bs Hbs (S (N.to_nat (lenN S))) S [] idm nl sl'
-                  (store_batch_sample_names zc (mkColl S idm ss k nl sl') arch_empty)) as Hst.
-    cbn [app map lenN length] in Hst. change (N.of_nat 0) with 0 in Hst.
+    pose proof (store_loop_ok bs Hbs (S (N.to_nat (lenN smp))) smp [] idm nl sl'
+                  (store_batch_sample_names zc (mkColl smp idm ss k nl sl') arch_empty)) as Hst.
+    cbn [app map] in Hst. change (lenN (@nil sample)) with 0 in Hst.
     rewrite Hst by (try exact Hok; rewrite to_nat_lenN; lia). clear Hst.
     eexists. eexists. eexists. split; [reflexivity|].
     cbn [a_contigs a_details a_samples a_cur store_batch_sample_names arch_empty app].
     fold Bs.
     split; [rewrite map_length; reflexivity|].
-    split; [rewrite Forall_map; apply Forall_forall; intros; reflexivity|].
+    split; [cbn [samples]; rewrite Forall_map; apply Forall_forall; intros; reflexivity|].
     (* load *)
     unfold load_all, load_batch_sample_names. cbn [a_samples a_cur a_contigs a_details nthN nth_error N.to_nat].
     unfold serialize_sample_names. cbn [samples].
@@ -384,18 +390,336 @@ Section WithZstd.
     2:{ rewrite lenN_map. exact Hlen. }
     cbn [obnd fst snd coll_new segment_size kmer_length no_samples_in_last_batch samples_loaded].
     rewrite map_length. rewrite map_map.
-    assert (HS : concat Bs = S) by (subst Bs; apply concat_chunks; lia).
-    destruct (load_loop_ok
-                (mkArch [(zc 19 (ser_sample_names (map sname S)), lenN (ser_sample_names (map sname S)))]
-                        (map names_part Bs) (map details_part Bs) (0 + 1))
-                Bs [] (ids_of (map sname S) 0 []) 0 eq_refl eq_refl Hok) as [nl' Hl].
-    cbn [concat app lenN length] in Hl. change (N.of_nat 0) with 0 in Hl.
     rewrite HS in Hl. change (fun x : sample => mkSample (sname x) []) with blank.
     rewrite Hl. split; [reflexivity|]. cbn [samples samples_loaded ids].
     split; [reflexivity|]. split; [reflexivity|].
     intros Hnd i s Hi.
-    rewrite (ids_of_get (map sname S) 0 [] (sname s) i Hnd).
+    rewrite (ids_of_get (map sname smp) 0 [] (sname s) i Hnd).
     - f_equal.
     - rewrite nth_error_map, Hi. reflexivity.
   Qed.
 End WithZstd.
+
+(* ================================================================ listing order = first-registration order *)
+Definition memb (x : name) (l : list name) : bool := existsb (beqb x) l.
+
+(* first occurrences, in order *)
+Fixpoint first_occ (seen l : list name) : list name :=
+  match l with
+  | [] => []
+  | x :: r => if memb x seen then first_occ seen r else x :: first_occ (x :: seen) r
+  end.
+
+Definition op_stored (op : name * name) : name := stored_name (fst op) (snd op).
+
+Fixpoint reg_all (c : coll) (ops : list (name * name)) : outcome coll :=
+  match ops with
+  | [] => Ok c
+  | op :: r => obnd (register_sample_contig c (fst op) (snd op)) (fun cb => reg_all (fst cb) r)
+  end.
+
+Lemma beqb_sym a b : beqb a b = beqb b a.
+Proof.
+  destruct (beqb a b) eqn:E.
+  - apply beqb_eq in E. subst. symmetry. apply beqb_refl.
+  - apply beqb_neq in E. symmetry. apply beqb_neq. congruence.
+Qed.
+
+Lemma memb_in x l : memb x l = true <-> In x l.
+Proof.
+  unfold memb. rewrite existsb_exists. split.
+  - intros [y [Hy E]]. apply beqb_eq in E. subst. exact Hy.
+  - intro H. exists x. split; [exact H | apply beqb_refl].
+Qed.
+Lemma memb_app x a b : memb x (a ++ b) = memb x a || memb x b.
+Proof. unfold memb. apply existsb_app. Qed.
+
+Lemma first_occ_snoc l : forall seen x,
+  first_occ seen (l ++ [x]) = first_occ seen l ++ (if memb x seen || memb x l then [] else [x]).
+Proof.
+  induction l as [|y l IH]; intros seen x.
+  - cbn [app first_occ memb existsb]. rewrite orb_false_r. destruct (existsb (beqb x) seen); reflexivity.
+  - cbn [app first_occ]. destruct (memb y seen) eqn:Ey.
+    + rewrite IH. f_equal. change (memb x (y :: l)) with (beqb x y || memb x l).
+      destruct (beqb x y) eqn:Exy; [|reflexivity].
+      apply beqb_eq in Exy. subst. rewrite Ey. reflexivity.
+    + rewrite IH. cbn [app]. f_equal. f_equal.
+      change (memb x (y :: seen)) with (beqb x y || memb x seen).
+      change (memb x (y :: l)) with (beqb x y || memb x l).
+      destruct (beqb x y), (memb x seen), (memb x l); reflexivity.
+Qed.
+
+Lemma memb_first_occ x l : forall seen, memb x (first_occ seen l) = negb (memb x seen) && memb x l.
+Proof.
+  induction l as [|y l IH]; intro seen; [cbn; rewrite andb_false_r; reflexivity|].
+  cbn [first_occ]. change (memb x (y :: l)) with (beqb x y || memb x l).
+  destruct (memb y seen) eqn:Ey.
+  - rewrite IH. destruct (beqb x y) eqn:Exy; [|reflexivity].
+    apply beqb_eq in Exy. subst. rewrite Ey. reflexivity.
+  - change (memb x (y :: first_occ (y :: seen) l)) with (beqb x y || memb x (first_occ (y :: seen) l)).
+    rewrite IH. change (memb x (y :: seen)) with (beqb x y || memb x seen).
+    destruct (beqb x y) eqn:Exy.
+    + apply beqb_eq in Exy. subst. rewrite Ey. reflexivity.
+    + reflexivity.
+Qed.
+
+(* ---- the catalogue as a table sample -> contig names, and registration on that table *)
+Definition tab := list (name * list name).
+Definition tab_of (c : coll) : tab := map (fun s => (sname s, map cname (scontigs s))) (samples c).
+
+Definition add_ct (cs : list name) (ct : name) : list name := if memb ct cs then cs else cs ++ [ct].
+Fixpoint tab_reg (t : tab) (s ct : name) : tab :=
+  match t with
+  | [] => [(s, [ct])]
+  | (s', cs) :: t' => if beqb s' s then (s', add_ct cs ct) :: t' else (s', cs) :: tab_reg t' s ct
+  end.
+Fixpoint tab_get (t : tab) (s : name) : option (list name) :=
+  match t with
+  | [] => None
+  | (s', cs) :: t' => if beqb s' s then Some cs else tab_get t' s
+  end.
+
+Lemma tab_reg_absent t s ct : ~ In s (map fst t) -> tab_reg t s ct = t ++ [(s, [ct])].
+Proof.
+  induction t as [|[s' cs] t IH]; intro H; [reflexivity|]. cbn [tab_reg app].
+  replace (beqb s' s) with false.
+  - rewrite IH; [reflexivity|]. intro; apply H; right; assumption.
+  - symmetry. apply beqb_neq. intro; subst. apply H. left. reflexivity.
+Qed.
+Lemma tab_reg_mid P s cs R ct :
+  ~ In s (map fst P) -> tab_reg (P ++ (s, cs) :: R) s ct = P ++ (s, add_ct cs ct) :: R.
+Proof.
+  induction P as [|[s' cs'] P IH]; intro H.
+  - cbn [app tab_reg]. rewrite beqb_refl. reflexivity.
+  - cbn [app tab_reg]. replace (beqb s' s) with false.
+    + rewrite IH; [reflexivity|]. intro; apply H; right; assumption.
+    + symmetry. apply beqb_neq. intro; subst. apply H. left. reflexivity.
+Qed.
+
+Lemma map_fst_tab_reg t s ct :
+  map fst (tab_reg t s ct) = if memb s (map fst t) then map fst t else map fst t ++ [s].
+Proof.
+  induction t as [|[s' cs] t IH]; [reflexivity|]. cbn [tab_reg map fst].
+  change (memb s (s' :: map fst t)) with (beqb s s' || memb s (map fst t)). rewrite (beqb_sym s s').
+  destruct (beqb s' s); [reflexivity|]. cbn [map fst orb]. rewrite IH.
+  destruct (memb s (map fst t)); reflexivity.
+Qed.
+Lemma tab_get_tab_reg t s ct s' :
+  tab_get (tab_reg t s ct) s' =
+  if beqb s s' then Some (match tab_get t s with Some cs => add_ct cs ct | None => [ct] end) else tab_get t s'.
+Proof.
+  induction t as [|[s0 cs] t IH].
+  - cbn [tab_reg tab_get]. destruct (beqb s s'); reflexivity.
+  - cbn [tab_reg tab_get]. destruct (beqb s0 s) eqn:E0.
+    + apply beqb_eq in E0. subst s0. cbn [tab_get]. destruct (beqb s s'); reflexivity.
+    + cbn [tab_get]. rewrite IH. destruct (beqb s0 s') eqn:E1; [|reflexivity].
+      apply beqb_eq in E1. subst s0. rewrite (beqb_sym s s'), E0. reflexivity.
+Qed.
+
+(* ---- closed form of a sequence of registrations on the table *)
+Definition tab_all (ops : list (name * name)) : tab :=
+  fold_left (fun t op => tab_reg t (op_stored op) (snd op)) ops [].
+Definition contigs_under (s : name) (ops : list (name * name)) : list name :=
+  map snd (filter (fun op => beqb (op_stored op) s) ops).
+
+Lemma tab_all_samples ops : map fst (tab_all ops) = first_occ [] (map op_stored ops).
+Proof.
+  unfold tab_all. induction ops as [|op ops IH] using rev_ind; [reflexivity|].
+  rewrite fold_left_app. cbn [fold_left]. rewrite map_fst_tab_reg, IH.
+  rewrite map_app. cbn [map]. rewrite first_occ_snoc. rewrite memb_first_occ. cbn [memb existsb negb andb orb].
+  destruct (memb (op_stored op) (map op_stored ops)); [rewrite app_nil_r|]; reflexivity.
+Qed.
+
+Lemma tab_all_contigs ops s :
+  tab_get (tab_all ops) s =
+  if memb s (map op_stored ops) then Some (first_occ [] (contigs_under s ops)) else None.
+Proof.
+  unfold tab_all, contigs_under. induction ops as [|op ops IH] using rev_ind; [reflexivity|].
+  rewrite fold_left_app. cbn [fold_left]. rewrite tab_get_tab_reg.
+  rewrite map_app, memb_app. cbn [map]. change (memb s [op_stored op]) with (beqb s (op_stored op) || false).
+  rewrite orb_false_r. rewrite filter_app, map_app. cbn [filter].
+  rewrite (beqb_sym s (op_stored op)).
+  destruct (beqb (op_stored op) s) eqn:E.
+  - apply beqb_eq in E. rewrite E in *. rewrite orb_true_r. rewrite IH. cbn [map]. rewrite first_occ_snoc.
+    cbn [memb existsb orb]. unfold add_ct.
+    destruct (memb s (map op_stored ops)) eqn:Em.
+    + rewrite memb_first_occ. change (memb (snd op) []) with false. cbn [negb andb orb].
+      destruct (memb (snd op) (map snd (filter (fun op0 => beqb (op_stored op0) s) ops))) eqn:Em2;
+        [rewrite app_nil_r|]; reflexivity.
+    + (* s not registered before: no op under s *)
+      assert (Hnil : filter (fun op0 => beqb (op_stored op0) s) ops = []).
+      { destruct (filter (fun op0 => beqb (op_stored op0) s) ops) as [|o l] eqn:F; [reflexivity|].
+        exfalso. assert (Hin : In o (filter (fun op0 => beqb (op_stored op0) s) ops)) by (rewrite F; left; reflexivity).
+        apply filter_In in Hin. destruct Hin as [Hin Hb]. apply beqb_eq in Hb.
+        assert (Hs : In s (map op_stored ops)) by (rewrite <- Hb; apply in_map; exact Hin).
+        apply memb_in in Hs. rewrite Em in Hs. discriminate. }
+      rewrite Hnil. reflexivity.
+  - rewrite orb_false_r. cbn [map]. rewrite app_nil_r. exact IH.
+Qed.
+
+(* ---- the concrete collection follows the table *)
+Definition ids_ok (names : list name) (m : idmap) : Prop :=
+  NoDup names /\ lenN m = lenN names /\
+  (forall i nm, nth_error names i = Some nm -> id_get m nm = Some (N.of_nat i)) /\
+  (forall nm, ~ In nm names -> id_get m nm = None).
+Definition coll_ok (c : coll) : Prop := ids_ok (map sname (samples c)) (ids c).
+
+Lemma coll_ok_new ss k : coll_ok (coll_new ss k).
+Proof.
+  unfold coll_ok, ids_ok. cbn. split; [constructor|]. split; [reflexivity|]. split.
+  - intros [|i] nm H; discriminate.
+  - reflexivity.
+Qed.
+
+Lemma name_in_dec (x : name) (l : list name) : {In x l} + {~ In x l}.
+Proof. apply in_dec. apply list_eq_dec. apply N.eq_dec. Qed.
+
+Lemma NoDup_snoc {A} (l : list A) x : NoDup l -> ~ In x l -> NoDup (l ++ [x]).
+Proof.
+  induction 1 as [|y l Hy Hl IH]; intro Hx; [repeat constructor; intros []|].
+  cbn [app]. constructor.
+  - intro Hin. apply in_app_or in Hin. destruct Hin as [Hin|[E|[]]]; [contradiction|]. subst. apply Hx. left. reflexivity.
+  - apply IH. intro; apply Hx; right; assumption.
+Qed.
+
+Lemma id_remove_absent m k0 : id_get m k0 = None -> id_remove m k0 = m.
+Proof.
+  induction m as [|[k' v] m IH]; [reflexivity|]. cbn [id_get id_remove].
+  destruct (beqb k' k0); [discriminate|]. intro H. rewrite IH by exact H. reflexivity.
+Qed.
+
+Lemma map_fst_tab_of c : map fst (tab_of c) = map sname (samples c).
+Proof. unfold tab_of. rewrite map_map. reflexivity. Qed.
+
+Lemma memb_cnames ct cs : memb ct (map cname cs) = existsb (fun c' => beqb (cname c') ct) cs.
+Proof.
+  induction cs as [|c cs IH]; [reflexivity|]. cbn [map existsb]. rewrite <- IH.
+  change (memb ct (cname c :: map cname cs)) with (beqb ct (cname c) || memb ct (map cname cs)).
+  rewrite (beqb_sym ct (cname c)). reflexivity.
+Qed.
+
+Lemma tab_get_absent t s : ~ In s (map fst t) -> tab_get t s = None.
+Proof.
+  induction t as [|[s' cs] t IH]; intro H; [reflexivity|]. cbn [tab_get].
+  replace (beqb s' s) with false.
+  - apply IH. intro; apply H; right; assumption.
+  - symmetry. apply beqb_neq. intro; subst. apply H. left. reflexivity.
+Qed.
+Lemma tab_get_mid P s cs R : ~ In s (map fst P) -> tab_get (P ++ (s, cs) :: R) s = Some cs.
+Proof.
+  induction P as [|[s' cs'] P IH]; intro H.
+  - cbn [app tab_get]. rewrite beqb_refl. reflexivity.
+  - cbn [app tab_get]. replace (beqb s' s) with false.
+    + apply IH. intro; apply H; right; assumption.
+    + symmetry. apply beqb_neq. intro; subst. apply H. left. reflexivity.
+Qed.
+
+(* a registered name sits at one position; the samples before it have other names *)
+Lemma find_sample c st :
+  coll_ok c -> In st (map sname (samples c)) ->
+  exists P smp R, samples c = P ++ smp :: R /\ sname smp = st /\ ~ In st (map sname P) /\
+                  id_get (ids c) st = Some (lenN P).
+Proof.
+  intros [Hnd [_ [H3 _]]] Hin.
+  destruct (In_nth_error _ _ Hin) as [j Hj].
+  pose proof (H3 j st Hj) as Hid.
+  rewrite nth_error_map in Hj. destruct (nth_error (samples c) j) as [smp|] eqn:Ej; [|discriminate].
+  injection Hj as Hsn.
+  destruct (nth_error_split _ _ Ej) as [P [R [HS HP]]].
+  exists P, smp, R. split; [exact HS|]. split; [exact Hsn|]. split.
+  - rewrite HS, map_app in Hnd. cbn [map] in Hnd. rewrite Hsn in Hnd.
+    apply NoDup_remove_2 in Hnd. intro Hp. apply Hnd. apply in_or_app. left. exact Hp.
+  - rewrite Hid. unfold lenN. rewrite HP. reflexivity.
+Qed.
+
+Lemma reg_step c s ct :
+  coll_ok c ->
+  exists c' b, register_sample_contig c s ct = Ok (c', b) /\ coll_ok c' /\
+               tab_of c' = tab_reg (tab_of c) (stored_name s ct) ct.
+Proof.
+  intro Hok. set (st := stored_name s ct).
+  destruct (name_in_dec st (map sname (samples c))) as [Hin|Hnin].
+  - destruct (find_sample c st Hok Hin) as [P [smp [R [HS [Hsn [HnP Hid]]]]]].
+    unfold register_sample_contig. fold st. rewrite Hid. rewrite HS, nthN_mid.
+    assert (Htab : tab_of c = map (fun s0 => (sname s0, map cname (scontigs s0))) P ++
+                              (st, map cname (scontigs smp)) :: map (fun s0 => (sname s0, map cname (scontigs s0))) R).
+    { unfold tab_of. rewrite HS, map_app. cbn [map]. rewrite Hsn. reflexivity. }
+    assert (HnP' : ~ In st (map fst (map (fun s0 => (sname s0, map cname (scontigs s0))) P)))
+      by (rewrite map_map; exact HnP).
+    rewrite Htab, tab_reg_mid by exact HnP'. unfold add_ct. rewrite memb_cnames.
+    destruct (existsb (fun c' => beqb (cname c') ct) (scontigs smp)).
+    + exists c, false. rewrite <- HS. split; [reflexivity|]. split; [exact Hok|]. exact Htab.
+    + eexists. exists true. split; [reflexivity|].
+      unfold with_samples, coll_ok, tab_of. cbn [samples ids]. rewrite to_nat_lenN, set_nth_mid.
+      split.
+      * rewrite map_app. cbn [map sname]. unfold coll_ok in Hok. rewrite HS, map_app in Hok. exact Hok.
+      * rewrite map_app. cbn [map sname scontigs]. rewrite Hsn, map_app. reflexivity.
+  - pose proof Hok as [Hnd [Hlen [H3 H4]]].
+    unfold register_sample_contig. fold st. rewrite (H4 st Hnin).
+    cbn [samples]. rewrite Hlen, lenN_map.
+    replace (samples c ++ [mkSample st []]) with (samples c ++ mkSample st [] :: []) by reflexivity.
+    rewrite nthN_mid. cbn [scontigs existsb sname app].
+    eexists. exists true. split; [reflexivity|].
+    unfold with_samples, coll_ok, tab_of. cbn [samples ids]. rewrite to_nat_lenN, set_nth_mid.
+    split.
+    + rewrite map_app. cbn [map sname]. unfold ids_ok. split; [apply NoDup_snoc; assumption|].
+      split.
+      { unfold id_insert. rewrite id_remove_absent by (apply H4; exact Hnin).
+        rewrite lenN_cons, lenN_app. rewrite Hlen. reflexivity. }
+      split.
+      { intros i nm Hi. rewrite id_get_insert.
+        destruct (Nat.lt_ge_cases i (length (map sname (samples c)))) as [Hlt|Hge].
+        - rewrite nth_error_app1 in Hi by exact Hlt.
+          replace (beqb st nm) with false.
+          + apply H3. exact Hi.
+          + symmetry. apply beqb_neq. intro; subst nm. apply Hnin. eapply nth_error_In. exact Hi.
+        - rewrite nth_error_app2 in Hi by exact Hge.
+          destruct (i - length (map sname (samples c)))%nat as [|d] eqn:Ed; [|destruct d; discriminate].
+          injection Hi as <-. rewrite beqb_refl. f_equal. rewrite map_length in *. unfold lenN. lia. }
+      { intros nm Hn. rewrite id_get_insert.
+        replace (beqb st nm) with false.
+        - apply H4. intro; apply Hn; apply in_or_app; left; assumption.
+        - symmetry. apply beqb_neq. intro; subst nm. apply Hn. apply in_or_app. right. left. reflexivity. }
+    + rewrite map_app. cbn [map sname scontigs cname]. symmetry. apply tab_reg_absent.
+      rewrite map_fst_tab_of. exact Hnin.
+Qed.
+
+Lemma reg_all_ok ops : forall c,
+  coll_ok c ->
+  exists c', reg_all c ops = Ok c' /\ coll_ok c' /\
+             tab_of c' = fold_left (fun t op => tab_reg t (op_stored op) (snd op)) ops (tab_of c).
+Proof.
+  induction ops as [|op ops IH]; intros c Hok.
+  - exists c. split; [reflexivity|]. split; [exact Hok | reflexivity].
+  - destruct (reg_step c (fst op) (snd op) Hok) as [c1 [b [E [Hok1 Ht]]]].
+    destruct (IH c1 Hok1) as [c2 [E2 [Hok2 Ht2]]].
+    exists c2. cbn [reg_all fold_left]. rewrite E. cbn [obnd fst]. split; [exact E2|]. split; [exact Hok2|].
+    rewrite Ht2, Ht. reflexivity.
+Qed.
+
+Lemma contig_list_tab c s : coll_ok c -> get_contig_list c s = Ok (tab_get (tab_of c) s).
+Proof.
+  intro Hok. unfold get_contig_list, sample_by_name.
+  destruct (name_in_dec s (map sname (samples c))) as [Hin|Hnin].
+  - destruct (find_sample c s Hok Hin) as [P [smp [R [HS [Hsn [HnP Hid]]]]]].
+    rewrite Hid, HS, nthN_mid. cbn [obnd option_map]. unfold tab_of. rewrite HS, map_app. cbn [map]. rewrite Hsn.
+    rewrite tab_get_mid; [reflexivity|]. rewrite map_map. exact HnP.
+  - destruct Hok as [_ [_ [_ H4]]]. rewrite (H4 s Hnin). cbn [obnd option_map].
+    rewrite tab_get_absent; [reflexivity|]. rewrite map_fst_tab_of. exact Hnin.
+Qed.
+
+Theorem listing_order_proof :
+  forall (ss k : N) (ops : list (name * name)),
+  exists c, reg_all (coll_new ss k) ops = Ok c /\
+    get_samples_list c = first_occ [] (map op_stored ops) /\
+    forall s, get_contig_list c s =
+              Ok (if memb s (map op_stored ops) then Some (first_occ [] (contigs_under s ops)) else None).
+Proof.
+  intros ss k ops.
+  destruct (reg_all_ok ops (coll_new ss k) (coll_ok_new ss k)) as [c [E [Hok Ht]]].
+  exists c. split; [exact E|].
+  change (tab_of (coll_new ss k)) with (@nil (name * list name)) in Ht. fold (tab_all ops) in Ht.
+  split.
+  - unfold get_samples_list. rewrite <- map_fst_tab_of, Ht. apply tab_all_samples.
+  - intro s. rewrite contig_list_tab by exact Hok. rewrite Ht. rewrite tab_all_contigs. reflexivity.
+Qed.
